@@ -1,40 +1,40 @@
 /- REGENERATED on every check run by extract/threadevents from runtime/thread.go — do not edit.
-   source hash (the extracted functions): 7ebfb83aa852551e -/
+   source hash (the extracted functions): a6d8003a3a9b3c3a -/
 import GoluaVerif.Model.CoProto
 namespace GoluaVerif.Generated.ThreadEvents
 open GoluaVerif.Model.CoProto
 
-/-- runtime/thread.go:176 -/
+/-- runtime/thread.go:197 -/
 def p_Resume : Proc := ⟨"Resume", [
   [.lock .self, .unlock .self],
   [.lock .self, .lock .peer, .set .self, .unlock .self, .unlock .peer, .send .self, .recv .peer]]⟩
 
-/-- runtime/thread.go:204 -/
+/-- runtime/thread.go:220 -/
 def p_Close : Proc := ⟨"Close", [
   [.lock .self, .unlock .self],
   [.lock .self, .lock .peer, .set .self, .unlock .self, .unlock .peer, .send .self, .recv .peer]]⟩
 
-/-- runtime/thread.go:232 -/
+/-- runtime/thread.go:248 -/
 def p_Yield : Proc := ⟨"Yield", [
   [.lock .self, .unlock .self],
   [.lock .self, .lock .peer, .set .self, .unlock .self, .unlock .peer, .send .peer, .recv .self]]⟩
 
-/-- runtime/thread.go:256 -/
+/-- runtime/thread.go:272 -/
 def p_end : Proc := ⟨"end", [
   [.run, .lock .self, .lock .peer, .closeCh .self, .set .self, .touch, .send .peer, .unlock .peer, .unlock .self]]⟩
 
-/-- runtime/thread.go:137 -/
+/-- runtime/thread.go:158 -/
 def p_Start : Proc := ⟨"Start", [
   [.touch, .spawn]]⟩
 
 def p_Start_go : Proc := ⟨"Start.go", [
   [.recv .self, .touch, .run, .touch, .callEnd]]⟩
 
-/-- runtime/thread.go:294 -/
+/-- runtime/thread.go:315 -/
 def p_getResumeValues : Proc := ⟨"getResumeValues", [
   [.recv .self]]⟩
 
-/-- runtime/thread.go:302 -/
+/-- runtime/thread.go:323 -/
 def p_sendResumeValues : Proc := ⟨"sendResumeValues", [
   [.send .self]]⟩
 
